@@ -22,16 +22,16 @@ Theorem try_null_iff : forall cf t c g l g' l' es h am sh,
   exists new, hsh new = sh /\ hnn new = hown new /\ hown new = obtainable (sh && shcap cf) g /\
     ((at_ l' = HRelOld h new /\ slots l' = slots l) \/
      (at_ l' = Idle /\ slots l' = upd (slots l) h (Some new) /\ In (ret_ev (b2z (hnn new))) es)).
-Proof. exact try_null_iff_l. Qed.
+Proof. exact try_null_iff_t. Qed.
 
 (* a try / timed acquisition never blocks beyond its time: it is enabled under the time-out choice in every
    state (and a plain try_lock under every choice) *)
 Theorem timed_never_stuck : forall cf t g pr sl h am sh,
   am <> ABlock -> exists r, tstep cf t 2 g (Loc pr (HAcq h am sh) sl) = Some r.
-Proof. exact timed_never_stuck_l. Qed.
+Proof. exact timed_never_stuck_t. Qed.
 Theorem try_always_enabled : forall cf t c g pr sl h sh,
   exists r, tstep cf t c g (Loc pr (HAcq h ATry sh) sl) = Some r.
-Proof. exact try_always_enabled_l. Qed.
+Proof. exact try_always_enabled_t. Qed.
 
 (* a handle whose lock object owns keeps the mutex held for its thread, in the handle's mode, in every
    reachable state ... *)
@@ -65,7 +65,7 @@ Theorem unlock_nulls : forall cf t c g l g' l' es h,
   (at_ l = Idle /\ exists pr, prog l = Unlock h :: pr) \/ at_ l = HRel (RUnlock h) ->
   tstep cf t c g l = Some (g', l', es) -> In (ret_ev 0) es ->
   exists x, slot (slots l') h = Some x /\ hnn x = false /\ hown x = false.
-Proof. exact unlock_nulls_l. Qed.
+Proof. exact unlock_nulls_t. Qed.
 
 (* locking disabled at construction (guarded_opt / shared_guarded_opt with enableLocking = false): no handle
    ever owns a lock and no thread is ever at a pc of a handle operation that touches the mutex or waits ... *)
@@ -79,11 +79,11 @@ Theorem disabled_acquire : forall cf t c g pr sl o h am sh,
   locking cf = false -> noown sl -> acq_of cf o = Some (h, am, sh) -> (h < NSLOTS)%nat ->
   tstep cf t c g (Loc (o :: pr) Idle sl) =
   Some (g, Loc pr Idle (upd sl h (Some (H sh true false 0))), [inv_ev o; ret_ev 1]).
-Proof. exact disabled_acquire_l. Qed.
+Proof. exact disabled_acquire_t. Qed.
 
 (* ---------- non-vacuity and the recorded observation ---------- *)
-Definition cf_t : config := Cfg FShared MSharedTimed true 0 [].
-Definition cf_off : config := Cfg FGuardedOpt MPlain false 0 [].
+Definition cf_t : config := Cfg FShared MSharedTimed true 0 [] false.
+Definition cf_off : config := Cfg FGuardedOpt MPlain false 0 [] false.
 Definition rep (t n : nat) : list (nat * nat) := repeat (t, 0%nat) n.
 Definition slot_of (s : sys glob loc) (t h : nat) : option handle := slot (slots (locof (thr s) t)) h.
 
